@@ -195,6 +195,27 @@ def main():
         rp = dict(kind="sampled", seed=ck.seed, system=s, N=N, mult=mult)
         if numpy.abs(H0 - H0.T).max() != 0 or numpy.iscomplexobj(H0):
             ck.violation("real-symmetric", "H", rp, rp)
+        # the library's own exciton picture (Aggregate.diagonalize): energies
+        # and dipole strengths of the one-exciton states against the
+        # independent diagonalisation above
+        with ck.guarded("exciton-dipole-strengths", "diagonalize", rp, rp):
+            agd, Hd, Dd = build(Ecm, Jcm, dip, ident, "1/cm", "int", mult)
+            agd.diagonalize()
+            n1 = int(agd.Nb[1])
+            D2 = numpy.array(agd.D2)
+            got_ds = numpy.sort(D2[0, 1:1 + n1])
+            got_ev = numpy.sort(numpy.real(numpy.diag(numpy.array(agd.HH))))
+            e1 = float(numpy.abs(got_ds - ds0).max()) / float(
+                numpy.abs(ds0).max())
+            e2 = float(numpy.abs(got_ev - numpy.sort(ev0)).max()) / float(
+                numpy.abs(ev0).max())
+            e3 = float(numpy.abs(D2 - D2.T).max()) / float(numpy.abs(D2).max())
+            ck.case("exciton-dipole-strengths", s, sample=dict(
+                rp, strengths_err=e1, energies_err=e2, asymmetry=e3))
+            if e1 > 1e-9 or e2 > 1e-11 or e3 > 1e-9:
+                ck.violation("exciton-dipole-strengths", "diagonalize",
+                             dict(rp, strengths_err=e1, energies_err=e2,
+                                  asymmetry=e3), rp)
         for perm in itertools.permutations(range(N)):
             with ck.guarded("relabelling-invariant", "perm", rp, rp):
                 ag1, H1, D1 = build(Ecm, Jcm, dip, list(perm), "1/cm", "int",
